@@ -43,7 +43,7 @@ def w_matcher_counter(ctx):
     for rx in (r'^tokinizer::rule_tokinizer::find_match$', r'^tokinizer::dynamic_type_tokinizer::dynamic_type_tokinizer$', r'^types::find_location$'):
         b = ctx.facts.one(rx)
         locs = [l for l, n in b.names.items() if n == 'rule_token_index']
-        if not locs and rx.endswith('find_match$'):
+        if not locs and (rx.endswith('find_match$') or rx.endswith('dynamic_type_tokinizer$')):
             # the scan is written differently (other names, a struct for its state): its protocol is what the matcher table
             # (scv/matcher.py) tabulates
             key = ('matcher', getattr(ctx, 'digest', None), ctx.cfg_name, ctx.tier)
@@ -51,6 +51,21 @@ def w_matcher_counter(ctx):
                 _WALK[key] = _walk_matcher(ctx)
             if _WALK[key][0]:
                 msgs.append(fn_key(b.path) + ' (matcher table)')
+                continue
+        if not locs and rx.endswith('find_location$'):
+            # the variable search keeps its state differently: its selection is what C03 V7 tabulates (E6c over order types)
+            key = ('v7', getattr(ctx, 'digest', None), ctx.cfg_name, ctx.tier)
+            if key not in _WALK:
+                from ..report import Ctx
+                from .C03 import v7_selection
+                sub = Ctx('C03', ctx.tier, ctx.facts, ctx.cg, ctx.config, ctx.repo, ctx.cfg_name)
+                try:
+                    v7_selection(sub)
+                    _WALK[key] = (not sub.findings, {}, '')
+                except Exception:
+                    _WALK[key] = (False, {}, '')
+            if _WALK[key][0]:
+                msgs.append(fn_key(b.path) + ' (C03 V7 table)')
                 continue
         if not locs:
             return (False, '%s: counter rule_token_index not found' % fn_key(b.path))
@@ -172,10 +187,10 @@ def _walk_matcher(ctx):
         ok = bool(matcher_table(sub, 'Y7')) and not sub.findings
     except Exception:
         ok = False
-    return ok, dict(getattr(sub, '_matcher_visited', {})), 'on every walk of rule_tokinizer and find_match over lines of up to four tokens and four patterns (%d cells) this site is passed without unwinding' % getattr(sub, '_matcher_cells', 0)
+    return ok, dict(getattr(sub, '_matcher_visited', {})), 'on every walk of rule_tokinizer / find_match and of dynamic_type_tokinizer over lines of up to four tokens and four patterns (%d cells) this site is passed without unwinding' % getattr(sub, '_matcher_cells', 0)
 
 
-WALKERS = [(r'^tokinizer::rule_tokinizer::(find_match|rule_tokinizer)$', 'matcher', _walk_matcher),
+WALKERS = [(r'^tokinizer::rule_tokinizer::(find_match|rule_tokinizer)$|^tokinizer::dynamic_type_tokinizer::dynamic_type_tokinizer$', 'matcher', _walk_matcher),
            (r'^formatter::format_number$', 'format_number', _walk_format_number),
            (r'^<?token::ui_token::', 'char_map', _walk_char_map)]
 
